@@ -33,7 +33,7 @@ if __name__ == "__main__":
     ap.add_argument("patches", nargs="*")
     a = ap.parse_args()
     patches = a.patches or (sorted(glob.glob(VERIF + "/selftest/regress/*.diff")) + sorted(glob.glob(VERIF + "/seeded/*/patch.diff")))
-    patches = ["CLEAN"] + patches
+    patches = ["CLEAN"] + [os.path.abspath(p) for p in patches]
     props = a.props.split(",")
     with cf.ThreadPoolExecutor(16) as ex:
         for patch, out in ex.map(lambda p: run_one(p, props, a.tier), patches):
